@@ -36,7 +36,7 @@ DESIGN_REF = "DESIGN.md 4 C13"
 REQUIRED_REACH = ["t_stats", "p_vals", "antisymmetry", "self_zero", "index_sets", "alt_superset",
                   "welch", "overlap_t", "legacy_t_stats", "class:sq_weights", "class:weighted",
                   "class:transformed", "class:subtotal_selected", "class:only_larger=False",
-                  "class:only_larger=True"]
+                  "class:only_larger=True", "class:indices_read_first"]
 BATCH = 20
 UNIT_TIMEOUT_S = 40
 ALPHAS = [None, [0.05], [0.05, 0.2], [0.3, 0.01], 0.1]
@@ -111,7 +111,7 @@ def make_case(unit):
     if pw:
         tr["pairwise_indices"] = pw
     return {"template": template, "spec": sim.spec_to_dict(spec), "transforms": tr,
-            "mode": mode}
+            "mode": mode, "indices_first": g.chance(0.5)}
 
 
 def alphas_of(tr):
@@ -157,6 +157,13 @@ def check_case(case):
     for t, part in enumerate(parts.value):
         V = expect.SliceView(L, t, part)
         ncols = max(ncols, len(V.cols))
+        if case.get("indices_first"):
+            # the statistics must be the same whether or not the index sets (which are
+            # computed from them) were read before
+            res.classes.append("indices_read_first")
+            for nm in ("pairwise_indices", "pairwise_indices_alt", "pairwise_means_indices",
+                       "pairwise_means_indices_alt", "summary_pairwise_indices"):
+                read(part, nm)
         if case["mode"] == "means":
             nz |= _welch(res, L, V, part, tr)
         elif case["mode"] == "overlap":
